@@ -237,3 +237,68 @@ Proof.
   intros E1 E2. unfold step_m1, qsum. induction ps as [|p r IH]; simpl; [lra|].
   rewrite IH, (piece_m1_proper a a' b b' p E1 E2). lra.
 Qed.
+
+(* ---------- variance: the rate-weighted second moment of the states against the second moment of the measure *)
+Lemma qsum_map_le {A} (f g : A -> Q) l : (forall x, In x l -> f x <= g x) -> qsum (map f l) <= qsum (map g l).
+Proof.
+  unfold qsum. induction l as [|x r IH]; intros H; simpl; [lra|].
+  assert (f x <= g x) by (apply H; left; reflexivity).
+  assert (fold_right Qplus 0 (map f r) <= fold_right Qplus 0 (map g r)) by (apply IH; intros y Hy; apply H; right; exact Hy). lra.
+Qed.
+Lemma qsum_map_minus {A} (f g : A -> Q) l : qsum (map (fun x => f x - g x) l) == qsum (map f l) - qsum (map g l).
+Proof. unfold qsum. induction l as [|x r IH]; simpl; [lra|]. rewrite IH. lra. Qed.
+
+Lemma qsum_map_opp {A} (f : A -> Q) l : qsum (map (fun x => - f x) l) == - qsum (map f l).
+Proof. unfold qsum. induction l as [|x r IH]; simpl; [lra|]. rewrite IH. lra. Qed.
+
+Section VarianceGap.
+  Variable mid : Q -> Q -> Q.
+  Hypothesis mid_between : forall x y, x < y -> x < mid x y /\ mid x y < y.
+  Hypothesis mid_refl : forall x, ~ x == 0 -> mid x x == x.
+  Hypothesis mid_proper : forall x x' y y', x == x' -> y == y' -> mid x y == mid x' y'.
+  Variables mass m2 : Q -> Q -> Q.      (* nu and x^2 nu on intervals *)
+  Hypothesis mass_pos : forall a b, a <= b -> (b < 0 \/ 0 < a) -> 0 <= mass a b.
+  Hypothesis m2_add : forall a b c, a <= b -> b <= c -> (c < 0 \/ 0 < a) -> m2 a c == m2 a b + m2 b c.
+  Hypothesis m2_proper : forall a a' b b', a == a' -> b == b' -> m2 a b == m2 a' b'.
+  Variable xs : list Q.
+  Variables (o : nat) (h : Q).
+  Hypothesis Hadm : admissible xs o h.
+  (* per-cell bounds of x^2: inf2 k <= x^2 <= sup2 k on the cell of state k; hence (C09: x^2 nu >= 0 pointwise)
+     inf2 k * q_k <= int_cell x^2 nu <= sup2 k * q_k *)
+  Variables inf2 sup2 : nat -> Q.
+  Hypothesis state_in_bounds : forall k, (k < length xs)%nat -> k <> o -> inf2 k <= nthq xs k * nthq xs k <= sup2 k.
+  Hypothesis cell_moment_bounds : forall k, (k < length xs)%nat -> k <> o ->
+    inf2 k * mass (cell_lo mid xs k) (cell_hi mid xs k) <= m2 (cell_lo mid xs k) (cell_hi mid xs k)
+    <= sup2 k * mass (cell_lo mid xs k) (cell_hi mid xs k).
+
+  Definition osc_sum : Q := qsum (map (fun k => (sup2 k - inf2 k) * q_entry mid mass xs o k) (seq 0 (length xs))).
+
+  Theorem variance_gap :
+    let outside := m2 (headq xs) (h_left mid xs o) + m2 (h_right mid xs o) (lastq xs) in
+    - osc_sum <= second_moment_of_rates mid mass xs o - outside <= osc_sum.
+  Proof.
+    cbv zeta.
+    assert (T : qsum (q_vector mid m2 xs o) == intensity1 mid m2 xs o).
+    { apply (sum_rates_is_intensity_1d mid mid_between mid_refl mid_proper m2 m2_add m2_proper xs o h Hadm). }
+    unfold intensity1 in T.
+    assert (E : m2 (headq xs) (h_left mid xs o) + m2 (h_right mid xs o) (lastq xs) == qsum (q_vector mid m2 xs o)) by (rewrite T; lra).
+    rewrite E. unfold q_vector, second_moment_of_rates, osc_sum.
+    rewrite <- qsum_map_minus.
+    pose proof (admissible_ends xs o h Hadm) as He. destruct Hadm as (Hi & H1 & H2 & _ & H0 & _).
+    assert (P : forall k, In k (seq 0 (length xs)) ->
+              - ((sup2 k - inf2 k) * q_entry mid mass xs o k)
+              <= nthq xs k * nthq xs k * q_entry mid mass xs o k - q_entry mid m2 xs o k
+              <= (sup2 k - inf2 k) * q_entry mid mass xs o k).
+    { intros k Hk. apply in_seq in Hk. unfold q_entry. destruct (Nat.eqb_spec k o) as [->|Hne]; [lra|].
+      destruct (state_in_bounds k ltac:(lia) Hne) as [S1 S2]. destruct (cell_moment_bounds k ltac:(lia) Hne) as [C1 C2].
+      assert (Qn : 0 <= mass (cell_lo mid xs k) (cell_hi mid xs k)).
+      { destruct (cell_side mid mid_between mid_refl xs o Hi He H1 H2 H0 k ltac:(lia)) as [A B].
+        apply mass_pos; [apply (cell_lo_hi mid mid_between mid_refl); try assumption; lia|].
+        destruct (Nat.lt_ge_cases k o); [left; apply A; assumption|right; apply B; lia]. }
+      set (q := mass (cell_lo mid xs k) (cell_hi mid xs k)) in *. set (x2 := nthq xs k * nthq xs k) in *.
+      set (c := m2 (cell_lo mid xs k) (cell_hi mid xs k)) in *. split; nra. }
+    split.
+    - rewrite <- qsum_map_opp. apply qsum_map_le. intros k Hk. destruct (P k Hk). lra.
+    - apply qsum_map_le. intros k Hk. destruct (P k Hk). lra.
+  Qed.
+End VarianceGap.
